@@ -72,6 +72,12 @@ CLAIMED["C19"] = ("24 theorems: the access table (587 rows = every exported endp
     "fund-moving rows disallowed when inactive or paused (pair bootstrap exception), partial-active = liquidity only; inventory covered, #[only_owner] attributes agree; for all inputs: require_any_of rule, no escalation and powerless callers over every permissions/hub history, on-behalf rule = hub view, revocation/blacklist stick, rewards to the original owner; "
     "on Model.Pair / Model.Farm for all states and arguments: inactive => no user-funds operation. Tied by executing the complete endpoint x role x state matrix on the real contracts (state restored between cells) and comparing every verdict; failing calls must not change state.",
     "24 C19", "Coq finite decision table proved exhaustively + for-all-input guard/state-machine theorems + full matrix correspondence")
+CLAIMED["C16"] = ("19 theorems on the proxy_dex model (pair, farms and energy factory are environment answers; the interface laws are boolean predicates evaluated where each answer is consumed and checked on every real answer): "
+    "Backed invariant for every lawful history and all positions at once (LP held >= user-held wrapped LP; farm tokens per nonce >= outstanding wrapped-farm supply; locked tokens per nonce >= sum of floor shares + wrapped-farm supply); "
+    "remove returns locked tokens of the recorded nonce = min(received, part), base asset only as pool surplus, burns base + locked = part; exit with/without penalty for both farming-token kinds; base asset never paid except that surplus; merge; "
+    "base minted on entry = base + locked burned on exit; energy drops by exactly burned*(unlock - now) incl. expired locks; into_part = floor share, aborts on zero, parts never sum past the whole. "
+    "Tied to the real pair + two farm-with-locked-rewards + energy factory + proxy_dex by differential replay.", "19 C16",
+    "Coq inductive invariant + characterisation theorems relative to stated callee laws + correspondence")
 NOT_YET = {}
 
 def main():
